@@ -622,6 +622,18 @@ XProg(v) ==
     [] v = "iface-result-bound-to-value-struct" ->   \* the injector returns an interface bound to a non-pointer struct; its provider can fail
          [mk(<<BindL("B", "I1", "CV"), Func("PCV", <<"T2">>, "CV", TRUE, TRUE), Func("P2", <<>>, "T2", TRUE, FALSE)>>, <<>>,
              <<[XInj("Inject", <<>>, "I1", <<ItL(1), ItL(2), ItL(3)>>, 1) EXCEPT !.cl = TRUE, !.er = TRUE]>>) EXCEPT !.fam = "R"]
+    [] v = "alias-satisfies" ->                  \* a provider whose result is written through a type alias provides the aliased type
+         mk(<<[XF("P2", <<>>, "T2") EXCEPT !.alias = TRUE], XF("P1", <<"T2">>, "T1")>>, <<>>,
+            <<XInj("Inject", <<>>, "T1", <<ItL(1), ItL(2)>>, 1)>>)
+    [] v = "defined-type-does-not-satisfy" ->    \* type N2 T2 is a different type: it does not provide T2
+         [mk(<<XF("PN2", <<>>, "N2"), XF("P1", <<"T2">>, "T1")>>, <<>>,
+             <<XInj("Inject", <<>>, "T1", <<ItL(2), ItL(1)>>, 1)>>) EXCEPT !.atoms = XAtoms \o <<MkAtom("N2", "named", "a", <<>>, <<>>, <<>>, "T2")>>]
+    [] v = "pointer-does-not-satisfy-value" ->   \* *T2 provided, T2 needed (and the other way round in the second injector)
+         mk(<<XF("PP2", <<>>, "*T2"), XF("P1", <<"T2">>, "T1"), XF("P3", <<>>, "T3"), XF("P9", <<"*T3">>, "T9")>>, <<>>,
+            <<XInj("Inject", <<>>, "T1", <<ItL(1), ItL(2)>>, 1)>>)
+    [] v = "value-does-not-satisfy-pointer" ->
+         mk(<<XF("P3", <<>>, "T3"), XF("P9", <<"*T3">>, "T9")>>, <<>>,
+            <<XInj("Inject", <<>>, "T9", <<ItL(1), ItL(2)>>, 1)>>)
     [] v = "same-set-twice-direct" ->          \* one set listed twice in the same call
          mk(<<XF("P2", <<>>, "T2"), XF("P1", <<"T2">>, "T1")>>, <<SetD("SetA", "a", <<ItL(1)>>)>>,
             <<XInj("Inject", <<>>, "T1", <<ItS(1), ItL(2), ItS(1)>>, 1)>>)
@@ -633,7 +645,8 @@ XVariants == {"star-foreign-tag-missing", "star-foreign-tag-ok", "two-files-firs
               "arg-returned-directly", "shared-import-bind-lacks-concrete", "multi-name-var-sets", "same-set-twice-direct", "same-set-twice-in-set",
               "foreign-struct-star", "foreign-struct-unexported-name", "foreign-struct-exported-name", "variadic-err-provider",
               "same-named-sets-two-packages", "two-unnamed-values", "same-name-packages", "two-fieldsof-items", "bind-after-concrete",
-              "iface-result-bound-to-value-struct"}
+              "iface-result-bound-to-value-struct", "alias-satisfies", "defined-type-does-not-satisfy", "pointer-does-not-satisfy-value",
+              "value-does-not-satisfy-pointer"}
 FamilyX(p, vs) == \E v \in vs : p = XProg(v)
 
 (* ======================================================================== *)
